@@ -3,7 +3,7 @@
 //! Check `connectivity_model`: generated sequences over {market item, account item, market
 //! reconnecting, account reconnecting} x exchange are processed by `Engine::process` (with a
 //! counting on-disconnect strategy); after every event the per-exchange flags, the global flag,
-//! the audit output and the strategy's call log are compared with a two-flags-per-exchange model.
+//! the audit output and the strategy's call log are compared with a two-flags-per-exchange model; a state replica fed with the same events must show the same connectivity.
 
 use crate::framework::{CaseReport, Check, Ctx, Tier};
 use crate::props::enginekit::{EvSpec, Link, Resolver, Rig};
@@ -102,6 +102,13 @@ impl Check for ConnectivityModel {
         let mut expected_calls: Vec<barter_instrument::exchange::ExchangeId> = Vec::new();
         let mut toggles = 0u32;
         let mut prev_global = false;
+        // an observer following the engine through its audit stream (state replica): its view of the
+        // links and of the global flag is the engine's
+        let mut replica = {
+            use barter::engine::audit::{AuditTick, Auditor};
+            let snapshot: AuditTick<crate::props::world::DefaultState> = <crate::props::enginekit::TestEngine as Auditor<crate::props::c10::Audit>>::audit_snapshot(&mut rig.engine);
+            barter::engine::audit::state_replica::StateReplicaManager::new(snapshot, ())
+        };
 
         // initial state
         if rig.engine.state.connectivity.global != Health::Reconnecting {
@@ -142,7 +149,11 @@ impl Check for ConnectivityModel {
                 Kind::AccountReconnecting => EvSpec::AccountReconnecting { ex: ex as u8 },
             };
             let event = resolver.resolve(&spec);
-            let audit = rig.engine.process(event);
+            let audit = rig.engine.process(event.clone());
+            replica.update_from_event(event);
+            if replica.state_replica.event.connectivity != rig.engine.state.connectivity {
+                bad!("replica-connectivity", "after event {n} {ev:?}: the state replica fed with the same event shows connectivity {:?}, the engine {:?}", replica.state_replica.event.connectivity, rig.engine.state.connectivity);
+            }
 
             // model step
             match ev.kind {
